@@ -22,7 +22,7 @@ for p in props:
         "evidence_file": "/verif/evidence/%s.json" % pid,
         "replay_cmd_template": "python3 bin/check.py --replay {path}",
         "engine": "gosx",
-        "level_claimed": {"category": "model_checking", "text": spec["level_text"], "design_ref": "DESIGN.md section 4, " + pid},
+        "level_claimed": {"category": "model_checking", "text": spec["level_text"], "design_ref": "DESIGN.md section 4 (design) and section 8.6 (as built), " + pid},
         "level_note": spec["level_note"],
         "technique": spec.get("technique", "bounded symbolic execution of the real Go SSA into SMT-LIB2, decided by z3; counterexamples replayed natively"),
     })
